@@ -19,8 +19,8 @@ Definition Inv (l : lib) : Prop :=
   /\ maps_exactly (v_strings_dict l) (held_strings l)
   (* no two held entries (strings) share a key *)
   /\ NoDup (map okey (held_entries l)) /\ NoDup (map okey (held_strings l))
-  (* strings lists exactly the held strings (its order is the dict's, see C08_strings_order_refuted) *)
-  /\ Permutation (v_strings l) (held_strings l)
+  (* strings are exactly the String blocks, in block order *)
+  /\ v_strings l = held_strings l
   (* the five class views partition blocks: together they hold every block exactly once *)
   /\ Permutation (v_entries l ++ v_strings l ++ v_preambles l ++ v_comments l ++ v_failed l) (v_blocks l)
   (* and the list views are in block order *)
@@ -66,11 +66,17 @@ Definition dict_equal (d1 d2 : list (str * oblock)) : Prop :=
             | None, None => True
             | _, _ => False
             end.
-(* before == after on blocks, entries_dict, strings_dict (hence on entries, preambles, comments, failed_blocks,
-   which are functions of blocks, and on strings as a collection) *)
+Definition list_equal (a b : list oblock) : Prop := Forall2 ob_eq a b.
+(* before == after on all eight views (lists in order, dicts as mappings) *)
 Definition lib_equal (before after : lib) : Prop :=
-  Forall2 ob_eq (blocks before) (blocks after)
-  /\ dict_equal (ents before) (ents after) /\ dict_equal (strs before) (strs after).
+  list_equal (v_blocks before) (v_blocks after)
+  /\ list_equal (v_entries before) (v_entries after)
+  /\ dict_equal (v_entries_dict before) (v_entries_dict after)
+  /\ list_equal (v_strings before) (v_strings after)
+  /\ dict_equal (v_strings_dict before) (v_strings_dict after)
+  /\ list_equal (v_preambles before) (v_preambles after)
+  /\ list_equal (v_comments before) (v_comments after)
+  /\ list_equal (v_failed before) (v_failed after).
 
 (* finding K1: add(..., fail_on_duplicate_key=True) *)
 Definition known_K1 (o : lop) : Prop := exists bs, o = LAdd bs true.
